@@ -5,6 +5,7 @@ CONSTANTS
   NPA = 2
   PageVals <- PagesSmall
   Offs = {0, 4095}
+  Snapshots = FALSE
 VIEW View
 ACTION_CONSTRAINT Emit
 INVARIANT TypeOK
@@ -12,4 +13,5 @@ PROPERTY MapStep
 PROPERTY Effect
 PROPERTY FindAgrees
 PROPERTY ReverseSound
+PROPERTY RestoreExact
 CHECK_DEADLOCK FALSE
